@@ -105,6 +105,19 @@ def mg_unordered(case, ctx):
     bins = gen.bins_frame(case["table"])
     cols = case["cols"]
     frames = [gen.pixels_frame(px, cols, {c: np.int64 for c in cols}) for px in case["chunks"]]
+    if case.get("id_dtype"):                    # the dtype of the ID columns handed in (the IDs fit)
+        for f in frames:
+            f["bin1_id"] = f["bin1_id"].astype(case["id_dtype"])
+            f["bin2_id"] = f["bin2_id"].astype(case["id_dtype"])
+    if case.get("labels") == "perm":            # row labels: a permutation of 0..k-1 (e.g. a shuffled frame that was not re-indexed)
+        import random as _random
+        for k, f in enumerate(frames):
+            lab = list(range(len(f)))
+            _random.Random(31 * len(f) + k).shuffle(lab)
+            f.index = lab
+    elif case.get("labels") == "offset":
+        for f in frames:
+            f.index = f.index + 1000
     scale = case.get("scale", 1)
     extra = {}
     if scale != 1:                              # float64 value columns holding exact multiples of 1/scale
